@@ -61,6 +61,7 @@ def specSeen : Shape → List Call → List (List (Nat × TagSet))
   | .etod c, h => specSeen c h
   | .deco c, h => specSeen c h
   | .fsink _ _ f, h => [if f = .ext then refSeen {} h else untagged h]
+  | .sff, _ => []
   | .tagger n g c, h => specSeen c (taggerV n g h)
   | .tfr c, h => specSeen c h
   | .multi cs, h => specSeenL cs h
@@ -72,7 +73,7 @@ end
 
 mutual
 def Shape.hasE2s : Shape → Bool
-  | .e2s _ => true
+  | .e2s _ | .sff => true
   | .etod c | .deco c | .tagger _ _ c | .tfr c => Shape.hasE2s c
   | .multi cs => Shape.hasE2sL cs
   | _ => false
